@@ -57,7 +57,19 @@ static polyseed_data* obtain(pv_rng* rng, const pv_mseed* m, int how, unsigned c
         int st = pv_api_create(arg, &s);
         pv_set_rand_prng();
         return st == POLYSEED_OK ? s : NULL; }
-    case 1: return pv_seed_from_model(m);
+    case 1: {
+        /* restoring a wallet file: now and then a damaged file is tried first (and refused); the next, good one must be unaffected
+         * (the allocator hands the block of the refused seed out again) */
+        if (pv_randn(rng, 3) == 0) {
+            int saved = pv_w->reuse_mode; pv_w->reuse_mode = 1;
+            uint8_t* bad = malloc(32); pv_m_image(m, bad); bad[pv_randn(rng, 3) ? 8 + pv_randn(rng, 24) : pv_randn(rng, 8)] ^= (uint8_t)(1u << pv_randn(rng, 8));
+            polyseed_data* t = NULL; if (pv_api_load(bad, &t) == POLYSEED_OK) pv_api_free(t); free(bad);
+            polyseed_data* s2 = pv_seed_from_model(m);
+            pv_w->reuse_mode = saved; if (!saved && pv_w->cache_ptr) { free(pv_w->cache_base); pv_w->cache_ptr = NULL; }
+            PV_COUNT("paths.loaded_after_a_refused_image", 1);
+            return s2;
+        }
+        return pv_seed_from_model(m); }
     case 2: {
         pv_mlang* L; do { L = &pv_langs[pv_randn(rng, (uint32_t)pv_nlangs)]; } while (!L->lib);
         char ph[2048]; pv_m_encode(m, L, coin, ph, sizeof ph);
